@@ -232,3 +232,21 @@ func localDecls() int {
 	_ = local2("")
 	return mon + tue + wed + k1 + k2 + k3 + k4 + single + append + copy + len + new + nil_ + fmt + os + strings
 }
+
+// reversed counting loops (the condition can never become true / false the way the author meant)
+func reversedLoops(n int, xs []int) int {
+	s := 0
+	for i := 0; i > n; i++ {
+		s += i
+	}
+	for i := n; i < 0; i-- {
+		s += i
+	}
+	for i := 0; i > len(xs); i++ {
+		s += xs[i]
+	}
+	for i, j := 0, n; i > j; i++ {
+		s += i
+	}
+	return s
+}
